@@ -2,14 +2,42 @@
 
     For every configuration and every schedule of GROUPS (an item that is [sitem_ok] in the state it is executed in, followed
     by forced moves — [VRun w] of a Lock call that was handed a unit or whose context ended while it was queued), the list of
-    (item, observation after the group) satisfies q_c05_unlock, q_c05_renew, q_c06_release (outside the F-LEAK signature
-    [sig_fleak]), q_c09_image (state file enabled), q_c09_surplus_in_flight, q_c11_keeps. [vrun_obs cfg sch] (no grouping:
-    every item observed) is the special case the statements are first given for.
+    (item, observation after the group) satisfies the predicates. [vrun_obs cfg sch] (no grouping: every item observed) is
+    the special case the statements are first given for. Final names:
+
+      svtrace_c05_unlock     sched_ok cfg sch → q_c05_unlock (vrun_obs cfg sch) = true
+      svtrace_c05_renew      sched_ok cfg sch → q_c05_renew (vrun_obs cfg sch) = true
+      svtrace_c06_release    sched_ok cfg sch → sig_fleak (vrun_obs cfg sch) = false → q_c06_release (sc_noclear cfg) (vrun_obs cfg sch) = true
+      svtrace_c09_image      sc_file cfg = true → sched_ok cfg sch → q_c09_image (vrun_obs cfg sch) = true
+      svtrace_c09_surplus    sched_ok cfg sch → q_c09_surplus_in_flight (vrun_obs cfg sch) = true
+      svtrace_c11_keeps      sched_ok cfg sch → q_c11_keeps (vrun_obs cfg sch) = true
+      svtrace_<...>_w        the same over [gsched_ok cfg gs] / [vrun_obs_w cfg gs] (what the real harness observes)
+      svtrace_c06_release_or_fleak_w   the lenient form, unconditionally
+      svtrace_verdict_w      what `svdriver trace` prints ([sv_trace_verdict]) on a model run
+      Examples               ex_race_* (an expiry racing an Unlock and a Renew), ex_renew_verdict, ex_sessend_verdict, ex_leak_verdict
+                             (F-LEAK's schedule: signature present, strict predicate false, lenient true), ex_shut_verdict (a group with
+                             a forced move; shutdown), each with doctored observation lists on which a predicate is false
 
     Every state a run passes through is [vreach]; the proofs instantiate the closed theorems of Proofs/SvAll.v at those states
-    and add four small facts: the link between an observation and the state it was taken of, where the events [SvSessAdd] /
-    [SvSessDestroy] / [SvConnEnd] of the ghost trace come from (so that the step log the harness sees determines them), that
-    the lock manager is shut down only by the closer's last step, and what a forced move can change. *)
+    (C05_unlock_truth, C05_renew_truth, C06_release_all, C09_acked_live / _acked_ended / _live_bound / _zombies_in_flight /
+    _image_live_or_in_flight, C11_net_after_flag, C11_keeps_holds) and add four small facts: the link between an observation and
+    the state it was taken of; where the events [SvSessAdd] / [SvSessDestroy] / [SvConnEnd] of the ghost trace come from (so that
+    the step log the harness sees determines them: [ended_link], [destroy_link], [destroy_rev], [fleak_link]); that the lock
+    manager is shut down only by the closer's last step ([mgr_closed_reach]); and what a forced move can change ([forced_frame],
+    [wakes_live], [woken_back]).
+
+    Left to the state theorems (not expressible on what the harness records, or only for quiescent observations):
+      C05  that the pending expiry frees the hold with its next step (C05_expiry_frees; the Python oracle checks it on the real
+           trace), the new deadline of a renewed lease (C05_renew_truth: the harness sees timer KEYS, not deadlines; the epilogue
+           ticks of the harness exercise it), C05_final (implied here: at an observation without parked goroutines [q_c05_unlock]
+           says "not in the table")
+      C06  released exactly once (C06_once: ghost events only), holds of OTHER sessions untouched by a session end (C06_frame; the
+           Python oracle's others_view), the no-clear configuration (C06_noclear, C06_noclear_listed; [q_c09_image]'s live clause
+           covers the image part of the latter)
+      C09  nothing: the premise "answered to a still-connected client" is not needed (the predicate is stronger than the text)
+      C11  blocked Lock calls return an error / the closer does not hang (C11_waiters_fail, C11_no_hang: statements about the NEXT
+           step of a parked call; on the real server that step is a forced move inside the closer's item, so the observations
+           show the answered error — the Python oracle checks it) *)
 From Coq Require Import Lia ZifyBool ZifyNat.
 From Ldlm Require Import Model.Base Model.Err Model.Sv Model.SvTrace Proofs.SeqLemmasKey.
 From Ldlm Require Import Proofs.SvDefs Proofs.SvInvBase Proofs.SvInvFrame Proofs.SvFileFrames Proofs.SvFileBase Proofs.SvFileStep
